@@ -290,6 +290,34 @@ def _c20_shrink(toks):
     return out
 
 
+def _c04_tags(toks, impl):
+    t = ["K=%s,P=%s" % (toks[2], toks[3]), "perm=" + ("default" if toks[4] == "default" else "random"), "stranded=" + toks[5], "thr=" + toks[6], "prune=" + toks[7]]
+    if impl.startswith("sigmas="):
+        sg = impl.split("|")[0][7:]
+        n = 0 if sg == "-" else sg.count(";") + 1
+        t.append("shards=%s" % ("0" if n == 0 else "1" if n == 1 else "2-4" if n < 5 else "5-15" if n < 16 else "16+"))
+    return t
+
+
+def _c04_nontrivial(toks, impl):
+    # at least two shards and a final graph with at least two nodes
+    if not impl.startswith("sigmas="):
+        return False
+    f = impl.split("|")
+    return f[0].count(";") >= 1 and f[1].count(",") >= 1
+
+
+def _c06_tags(toks, impl):
+    return ["K=" + toks[2], "stranded=" + toks[3], "thr=" + toks[4], "mask=" + ("empty" if toks[5] == "-" else "nonempty")]
+
+
+def _c19_tags(toks, impl):
+    if toks[1] == "big":
+        return ["req=big", "nodes=" + toks[4], "threads=" + toks[5]]
+    n = 0 if toks[5] == "-" else toks[5].count(",") + 1
+    return ["req=finish", "threads=" + toks[4], "nodes=%s" % ("0" if n == 0 else "1-4" if n < 5 else "5+")]
+
+
 PROPS = {
     "C07": {
         "lean_modules": ["Dbg.Props.C07"],
@@ -514,7 +542,9 @@ PROPS = {
     "C09": {
         "lean_modules": ["Dbg.Props.C09"],
         "theorems": [],
-        "partial": [],
+        "partial": ["C09_char (result = connected components of the surviving good links), C09_kmers, C09_no_dangling, C09_payload, C09_valid, "
+                    "idempotence and direct-route corollaries: executable predicates (partition against the k-mer table reconstructed from the "
+                    "surviving nodes, components by label propagation, dangling-extension scan, payload fold) evaluated on the crate's result"],
         "n_quick": 2500, "n_thorough": 150000,
         "nontrivial": lambda toks, impl: impl not in ("panic", "-") and toks[8].count(",") >= 2, "tags": _c09_tags,
         "rule": "requests `recompress K gstranded stranded join reduce censor nodes` on graphs obtained from the real pipeline at three compression "
@@ -552,5 +582,47 @@ PROPS = {
                 "comparison. Non-trivial = export of a graph with >= 2 nodes, or a persist request.",
         "trusted_base": ["serde / serde_json derive code (round trips are tested, not proved)", "Debug of DnaStringSlice (C15) renders the node sequence"],
         "assumptions": ["payload renderings are JSON values"],
+    },
+    "C04": {
+        "lean_modules": ["Dbg.Props.C04"],
+        "theorems": [],
+        "partial": [],
+        "n_quick": 1500, "n_thorough": 60000,
+        "nontrivial": _c04_nontrivial, "tags": _c04_tags, "shrink": _reads_shrink(8),
+        "rule": "requests `sharded K P perm stranded thr prune reads`: both real pipelines on the same read set from the structured generator; (K,P) in "
+                "{(4,2),(5,2),(6,2),(6,3),(8,3),(16,5)} (thorough adds (12,4),(31,6),(32,6),(48,8)); default and random minimizer permutations; "
+                "stranded 1/3 (rc mode of the partition = unstranded); thresholds 1-3; with and without the sharded pruning step. The per-shard "
+                "hash orders are read back and handed to the model, which recomputes both pipelines. Non-trivial = at least two shards and at "
+                "least two nodes in the sharded result.",
+        "trusted_base": ["HashMap/BTreeMap grouping of pieces by bucket", "as C01, C05, C08, C09"],
+        "assumptions": ["P < K; reduction commutative-associative (saturating sum)"],
+    },
+    "C06": {
+        "lean_modules": ["Dbg.Props.C06"],
+        "theorems": [],
+        "partial": [],
+        "n_quick": 1200, "n_thorough": 50000,
+        "nontrivial": lambda toks, impl: impl != "panic" and toks[5] != "-" and toks[6].count(",") >= 1, "tags": _c06_tags, "shrink": _reads_shrink(6),
+        "rule": "requests `rcsym K stranded thr mask reads`: the crate builds the k-mer table and the direct, sharded and re-compressed graphs for the "
+                "read set and for the read set with the masked reads reverse-complemented (random masks, each read with probability 1/2); K in "
+                "{4,5,6,8,12,16} (even and odd). Unstranded: keys, counts, extension sets of non-palindromic k-mers, partitions, payloads and "
+                "adjacencies must coincide and every key must be the minimum of k-mer and reverse complement; stranded: the table must be exactly "
+                "the forward k-mers of the reads with their counts. Non-trivial = a non-empty mask and at least two reads.",
+        "trusted_base": ["as C01, C04, C05, C09"],
+        "assumptions": [],
+    },
+    "C19": {
+        "lean_modules": ["Dbg.Props.C19"],
+        "theorems": [],
+        "partial": [],
+        "n_quick": 1500, "n_thorough": 60000,
+        "nontrivial": lambda toks, impl: impl.startswith("same=1") or ("same=1" in impl and toks[5].count(",") >= 1), "tags": _c19_tags,
+        "rule": "requests `finish K stranded threads nodes probes`: pipeline graphs finished once with finish_serial() and five times with finish() "
+                "inside a rayon pool of 1,2,3,4,8 or 16 threads; every edge list and link lookups for terminal, internal, reverse-complemented "
+                "and random k-mers are compared between the builders, across runs and with the model; `big K seed n threads reps`: graphs of "
+                "10^5 nodes (thorough: 3*10^5), parallel vs serial on every node side and 10^4 random k-mers (implementation against "
+                "implementation; the model is not consulted at this size). The corpus holds one 10^5-node case for every quick run.",
+        "trusted_base": ["boomphf (Mphf construction, parallel and serial), rayon: not modelled; schedules are explored, not proved"],
+        "assumptions": ["node ends distinct (valid graphs)"],
     },
 }
